@@ -33,6 +33,8 @@ type ScriptConn struct {
 	wrDrain  int
 	stall    bool
 	rdl, wdl time.Time
+	// WriteErr, when non-nil, is returned by every Write (a stream whose other end is gone: broken pipe).
+	WriteErr error
 	// ReadCalls counts Read invocations that returned data (observability for evidence).
 	ReadCalls int
 	CloseCnt  int
@@ -133,6 +135,9 @@ func (c *ScriptConn) Write(p []byte) (int, error) {
 	for {
 		if c.closed {
 			return 0, net.ErrClosed
+		}
+		if c.WriteErr != nil {
+			return 0, c.WriteErr
 		}
 		if !c.stall {
 			break
